@@ -69,6 +69,12 @@ pub const UNICODE: &[&str] = &[
 /// Hand-written statements the parser is expected to accept (measured: class `pool_parses`).
 pub const POOL: &[&str] = &[
     "SELECT 1",
+    // literal forms whose bodies are sliced by byte count, with multi-byte characters inside
+    "SELECT b'0000000é0000000', B'1010é101', x'aé', X'é1'",
+    "SELECT b'01010101', B'1', x'4142', n'é'",
+    // type forms with their own token-skipping loops (their prefixes are fixed cases)
+    "CREATE TABLE en (c ENUM('a', 'b'), s SET('x', 'y'), d DECIMAL(10, 2), f FLOAT(24), v VARCHAR(10) CHARACTER SET utf8)",
+    "CREATE TABLE en2 (c ENUM('a'), t TIME(3) WITH TIME ZONE, ts TIMESTAMP(6) WITHOUT TIME ZONE, i INTERVAL YEAR TO MONTH)",
     "SELECT * FROM t",
     "SELECT a, b AS x FROM t WHERE a = 1 AND b <> 'x' OR NOT c IS NULL",
     "SELECT DISTINCT a FROM t ORDER BY a DESC LIMIT 10 OFFSET 5",
